@@ -33,12 +33,34 @@ pub struct Obs {
     pub bad_value: bool,
 }
 
+/// Values are integers in the model; the views carry timestamps and ids, which are read
+/// back as the integer they were made from.
+pub fn as_i64(v: &emit::Value) -> Option<i64> {
+    if let Some(i) = v.by_ref().cast::<i64>() {
+        return Some(i);
+    }
+    if let Some(t) = v.by_ref().cast::<emit::Timestamp>() {
+        return Some(t.to_unix().as_secs() as i64);
+    }
+    if let Some(t) = v.by_ref().cast::<emit::span::TraceId>() {
+        return Some(t.to_u128() as i64);
+    }
+    v.by_ref().cast::<emit::span::SpanId>().map(|s| s.to_u64() as i64)
+}
+
+fn pull_any<P: Props + ?Sized>(p: &P, k: &str) -> Option<i64> {
+    p.pull::<i64, _>(k)
+        .or_else(|| p.pull::<emit::Timestamp, _>(k).map(|t| t.to_unix().as_secs() as i64))
+        .or_else(|| p.pull::<emit::span::TraceId, _>(k).map(|t| t.to_u128() as i64))
+        .or_else(|| p.pull::<emit::span::SpanId, _>(k).map(|t| t.to_u64() as i64))
+}
+
 fn enumerate<P: Props + ?Sized>(p: &P, break_at: usize, bad: &mut bool) -> (Vec<KV>, usize, bool) {
     let mut out = Vec::new();
     let mut calls = 0usize;
     let flow = p.for_each(|k, v| {
         calls += 1;
-        match v.cast::<i64>() {
+        match as_i64(&v) {
             Some(i) => out.push((k.get().to_string(), i)),
             None => {
                 *bad = true;
@@ -58,7 +80,7 @@ fn lookups<P: Props + ?Sized>(p: &P, keys: &[String], bad: &mut bool) -> (Vec<(S
     let mut get = Vec::new();
     let mut pull = Vec::new();
     for k in keys.iter().map(|s| s.as_str()).chain(std::iter::once(ABSENT)) {
-        let g = p.get(k).map(|v| match v.cast::<i64>() {
+        let g = p.get(k).map(|v| match as_i64(&v) {
             Some(i) => i,
             None => {
                 *bad = true;
@@ -67,11 +89,11 @@ fn lookups<P: Props + ?Sized>(p: &P, keys: &[String], bad: &mut bool) -> (Vec<(S
         });
         get.push((k.to_string(), g));
         // lookup by an owned key as well: `K: ToStr` is generic
-        let g2 = p.get(emit::Str::new_ref(k)).and_then(|v| v.cast::<i64>());
+        let g2 = p.get(emit::Str::new_ref(k)).and_then(|v| as_i64(&v));
         if g2 != g {
             *bad = true;
         }
-        pull.push((k.to_string(), p.pull::<i64, _>(k)));
+        pull.push((k.to_string(), pull_any(p, k)));
     }
     (get, pull)
 }
@@ -262,8 +284,43 @@ pub fn leak_str(s: &str) -> &'static str {
     Box::leak(s.to_string().into_boxed_str())
 }
 
-fn pairs(t: &Value) -> Vec<(&'static str, i64)> {
+pub fn pairs(t: &Value) -> Vec<(&'static str, i64)> {
     kvs_of(&t["kvs"]).into_iter().map(|(k, v)| (leak_str(&k), v)).collect()
+}
+
+/// What a thread-local context holds after the pairs were pushed as a frame, as seen by
+/// `with_current` while the frame is entered.
+pub fn ctxt_snapshot(p: &[(&'static str, i64)]) -> emit::platform::thread_local_ctxt::ThreadLocalCtxtFrame {
+    use emit::Ctxt;
+    let ctxt = emit::platform::thread_local_ctxt::ThreadLocalCtxt::new();
+    let mut frame = ctxt.open_push(p);
+    ctxt.enter(&mut frame);
+    let snap = ctxt.with_current(|c| c.clone());
+    ctxt.exit(&mut frame);
+    ctxt.close(frame);
+    snap
+}
+
+fn ts(s: i64) -> emit::Timestamp {
+    emit::Timestamp::from_unix(std::time::Duration::from_secs(s as u64)).unwrap()
+}
+
+pub fn extent_view(p: &[(&'static str, i64)]) -> emit::Extent {
+    let get = |k: &str| p.iter().find(|e| e.0 == k).map(|e| e.1);
+    match (get("ts_start"), get("ts")) {
+        (Some(a), Some(b)) => emit::Extent::range(ts(a)..ts(b)),
+        (None, Some(b)) => emit::Extent::point(ts(b)),
+        _ => tool_error("extent view without ts"),
+    }
+}
+
+pub fn span_ctxt_view(p: &[(&'static str, i64)]) -> emit::span::SpanCtxt {
+    let get = |k: &str| p.iter().find(|e| e.0 == k).map(|e| e.1);
+    emit::span::SpanCtxt::new(
+        get("trace_id").and_then(|v| emit::span::TraceId::from_u128(v as u128)),
+        get("span_parent").and_then(|v| emit::span::SpanId::from_u64(v as u64)),
+        get("span_id").and_then(|v| emit::span::SpanId::from_u64(v as u64)),
+    )
 }
 
 pub fn interp(t: &Value) -> Dyn {
@@ -298,6 +355,9 @@ pub fn interp(t: &Value) -> Dyn {
             }
             leak(m)
         }
+        "ctxt" => leak(ctxt_snapshot(&pairs(t))),
+        "extent" => leak(extent_view(&pairs(t))),
+        "spanctxt" => leak(span_ctxt_view(&pairs(t))),
         "opt" => leak(Some(interp(&t["t"]))),
         "ref" => leak(interp(&t["t"])),
         // an erased value behind another erased reference
